@@ -31,6 +31,12 @@ class SimInterrupt(BaseException):
     """Injected crash: control leaves a call at an arbitrary skchange source line."""
 
 
+class SimAllocFail(MemoryError):
+    """Injected allocation failure at an arbitrary skchange source line.  Unlike
+    SimInterrupt it is an ordinary ``Exception``: a handler in the code under test can
+    catch it (clean up, fall back - or swallow it and carry on with half-built state)."""
+
+
 class CallHang(BaseException):
     """A single public call exceeded its CPU budget (the pinned tree can loop forever,
     e.g. greedy selection with a negative threshold); treated like a fired fault."""
@@ -101,7 +107,8 @@ class LineTracer:
     """Counts ``line`` events in frames of /repo/skchange (tests excluded) and raises
     SimInterrupt at the k-th one.  k=None only counts."""
 
-    def __init__(self, k=None, record_sites=False):
+    def __init__(self, k=None, record_sites=False, alloc=False):
+        self.alloc = alloc
         self.k = k
         self.count = 0
         self.fired_at = None
@@ -119,7 +126,7 @@ class LineTracer:
                     frame.f_code.co_filename[len(SK_DIR):],
                     frame.f_lineno,
                 )
-                raise SimInterrupt()
+                raise (SimAllocFail("injected allocation failure") if self.alloc else SimInterrupt())
         return self._local
 
     def _global(self, frame, event, arg):
